@@ -90,8 +90,22 @@ def run_add(desc, seed, res, which):
             mod, mul = 131072, 131072
         else:
             field = R.instance_byte(kind, num)
-        for v in frames:
+        for vi, v in enumerate(frames):
             f = FF(width, v)
+            if vi % 4 == 3:
+                # a frame of the right size however it came about: assembled from pieces (as the drivers assemble what they
+                # receive), a plain Frame, a copy
+                import copy as _copy
+                how = (vi // 4) % 4
+                if how == 0:
+                    f = FF(8, v >> (width - 8)) + FF(width - 8, v % (1 << (width - 8)))
+                elif how == 1:
+                    f = FF(width - 8, v >> 8) + FF(8, v % 256)
+                elif how == 2:
+                    f = frame.Frame(width, v)
+                else:
+                    f = _copy.deepcopy(f)
+                res.hit("assembled_target_frames")
             try:
                 obj.add_to_frame(f)
             except Exception as e:
